@@ -18,8 +18,8 @@ import (
 	"sync"
 	"time"
 
-	record "github.com/libp2p/go-libp2p-record"
 	"github.com/libp2p/go-libp2p-kbucket/peerdiversity"
+	record "github.com/libp2p/go-libp2p-record"
 	"github.com/libp2p/go-libp2p/core/network"
 	"github.com/libp2p/go-libp2p/core/peer"
 	"github.com/libp2p/go-libp2p/core/peerstore"
